@@ -824,6 +824,11 @@ func (cl *cluster) enabled() []string {
 					out = append(out, fmt.Sprintf("Snap:%d", m))
 				}
 			}
+		case "Snap0": // a volume snapshot with no injected failure
+			if (c.MaxSnaps > 0 && cl.nSnaps >= c.MaxSnaps) || len(v.Backends) == 0 {
+				continue
+			}
+			out = append(out, "Snap:0")
 		case "Revert":
 			max := c.MaxReverts
 			if max == 0 {
